@@ -550,7 +550,7 @@ func main() {
 	}
 	npk, ncases, maxOps := 3, 60, 5
 	if lib.Thorough() {
-		npk, ncases, maxOps = 24, 80, 8
+		npk, ncases, maxOps = 12, 80, 8
 	}
 	if v := os.Getenv("C03_PKGS"); v != "" {
 		npk, _ = strconv.Atoi(v)
